@@ -247,6 +247,10 @@ Fixpoint nak_split (h : hdr) (eos : Z) (maxn : Z) (acc : list (Z * Z)) (l : trac
 Definition deferred_lost_segment_handling : D unit :=
   active <- gp p_deferred ;;
   if negb active then ret tt else
+  (* a fault declared while the PDU of this call was handled cancelled the transaction: nothing is requested or verified
+     any more, the cancel condition stands (F35 repair) *)
+  disp <- gp p_disp ;;
+  if disp =? DISP_CANCELED then ret tt else
   r <- rcfg_or_assert ;;
   eof <- gp p_file_size_eof ;;
   match eof with
